@@ -15,7 +15,7 @@ from fpy2.function import Function
 from fpy2.number import Float, RealFloat
 from fpy2.number.context.context import Context
 from fpy2.number.round import OverflowMode, RoundingMode
-from fpy2.utils import NamedId, UnderscoreId
+from fpy2.utils import UNINIT, NamedId, UnderscoreId
 
 from .export import OutOfDomain, ctx_json, num_json
 
@@ -32,7 +32,7 @@ SIMPLE_NARY = {
     'Add', 'Sub', 'Mul', 'Div', 'Fma', 'Neg', 'Abs', 'Sqrt', 'Cbrt', 'Copysign', 'Fdim', 'Hypot', 'Mod', 'Fmod',
     'Remainder', 'Pow', 'Ceil', 'Floor', 'Trunc', 'RoundInt', 'NearbyInt', 'Round', 'Cast', 'RoundAt', 'Max', 'Min',
     'Sum', 'IsNan', 'IsInf', 'IsFinite', 'Signbit', 'Not', 'And', 'Or', 'Len', 'Range1', 'Range2', 'Range3', 'Zip',
-    'Enumerate', 'AnyOf', 'AllOf', 'Fst', 'Snd', 'ConstNan', 'ConstInf',
+    'Enumerate', 'AnyOf', 'AllOf', 'Fst', 'Snd', 'ConstNan', 'ConstInf', 'Empty',
 }
 
 
@@ -48,6 +48,8 @@ def value_json(v) -> dict:
         return {'k': 'tuple', 'v': [value_json(x) for x in v]}
     if isinstance(v, Context):
         return {'k': 'ctx', 'c': ctx_json(v)}
+    if v is UNINIT:
+        return {'k': 'uninit'}
     raise Unsupported(f'value {type(v).__name__}')
 
 
